@@ -528,7 +528,10 @@ pub fn conclude(cfg: &RunCfg, rep: CheckReport) -> i32 {
     });
     let ev_dir = format!("{}/evidence", cfg.verif_dir);
     let _ = std::fs::create_dir_all(&ev_dir);
-    let ev_path = format!("{}/{}.json", ev_dir, cfg.prop);
+    let ev_path = match std::env::var("VERIF_EVIDENCE_PATH") {
+        Ok(p) => p,
+        Err(_) => format!("{}/{}.json", ev_dir, cfg.prop),
+    };
     if let Err(e) = std::fs::write(&ev_path, serde_json::to_string_pretty(&evidence).unwrap()) {
         eprintln!("cannot write evidence {}: {}", ev_path, e);
         return 2;
